@@ -1,44 +1,47 @@
-""" A thin wrapper around Hypothesis' `draw` with a random.Random-like surface,
-so that generators read like ordinary sampling code while every choice stays
-inside Hypothesis (shrinkable, replayable, seed-controlled). """
+""" Sampling surface used by all generators. Every choice comes from a Random object
+seeded by (a 64-bit integer drawn by Hypothesis, the shard's seed VERIF_SEED*1000+shard):
+a run is a pure function of VERIF_SEED, and values follow their usual (uniform)
+distributions. The shard seed is mixed in because Hypothesis draws small integers (0, 1, ..)
+very often, which made different shards regenerate identical cases. (Plain `st.integers` draws are strongly biased towards small values -
+measured: P(x >= 300 | x in 0..999) = 0.50 instead of 0.70 - which starved the interesting
+classes.) Failing cases are stored as concrete JSON and minimised by the harness' own
+reducer (vf.harness.reduce_case) in addition to Hypothesis' shrinking of the seed. """
+import os
+import random
 from hypothesis import strategies as st
 
 
 class D:
     def __init__(self, draw):
         self.draw = draw
+        base = draw(st.integers(0, 2 ** 64 - 1))
+        self.rng = random.Random(f"{os.environ.get('VF_SALT', '0')}:{base}")
 
     def randint(self, a, b):
         if b < a:
             b = a
-        return self.draw(st.integers(a, b))
+        return self.rng.randint(a, b)
 
     def choice(self, seq):
-        seq = list(seq)
-        return seq[self.draw(st.integers(0, len(seq) - 1))]
+        return self.rng.choice(list(seq))
 
     def chance(self, p):
-        """ True with probability ~p (shrinks towards False) """
-        return self.draw(st.integers(0, 999)) >= 1000 - int(p * 1000)
+        return self.rng.random() < p
 
     def bases(self, n):
-        """ n nucleotides from one binary draw (2 bits per base) """
-        raw = self.draw(st.binary(min_size=(n + 3) // 4, max_size=(n + 3) // 4))
-        return ''.join('ACGT'[(b >> s) & 3] for b in raw for s in (0, 2, 4, 6))[:n]
+        return ''.join(self.rng.choices('ACGT', k=n))
 
     def letters(self, alphabet, n):
-        return ''.join(alphabet[i] for i in
-            self.draw(st.lists(st.integers(0, len(alphabet) - 1), min_size=n, max_size=n)))
+        return ''.join(self.rng.choices(alphabet, k=n))
 
     def sample(self, seq, k):
         seq = list(seq)
-        out = []
-        for _ in range(min(k, len(seq))):
-            out.append(seq.pop(self.draw(st.integers(0, len(seq) - 1))))
-        return out
+        return self.rng.sample(seq, min(k, len(seq)))
 
     def shuffle(self, seq):
-        return self.draw(st.permutations(list(seq)))
+        seq = list(seq)
+        self.rng.shuffle(seq)
+        return seq
 
     def subset(self, seq, p=0.5):
         return [x for x in seq if self.chance(p)]
